@@ -430,9 +430,10 @@ def prebuild(ctx):
     c14d_part.prebuild(ctx)
     c14g_part.prebuild(ctx)
     c14l_part.prebuild(ctx)
-    from vlib import c14mm_part, c14_sccp
+    from vlib import c14mm_part, c14_sccp, c14c_part
     c14mm_part.prebuild(ctx)
     c14_sccp.prebuild(ctx)
+    c14c_part.prebuild(ctx)
     c14_pass.prebuild(ctx)
 
 
@@ -942,6 +943,9 @@ def run(ctx):
     from vlib import c14mm_part
     total += c14mm_part.part_memmerge(ctx)
     ctx.log(f"memmerging {time.time()-t:.0f}s"); t = time.time()
+    from vlib import c14c_part
+    total += c14c_part.part_copy_passes(ctx)
+    ctx.log(f"copy forwarding / elision passes {time.time()-t:.0f}s"); t = time.time()
     from vlib import c14s_part
     total += c14s_part.part_stack(ctx)
     ctx.log(f"stack model {time.time()-t:.0f}s"); t = time.time()
